@@ -13,7 +13,8 @@ package main
 //   61234 in url/da = the fake server's port.
 //   case:   <id> url=<hex> da=<hex> srv=<udp|tcp|tls|http|https|quic|h3> listen=<v4|v6> san=<name the certificate is for>
 //                ca=<0|1> ck=<0|1> ins=<0|1> peer=<certificate kind|-> srvreq=<0|1>
-//   result: start=ok dial=<address of the fake server when something arrived there|-> x=<ok|fail>   |   start=err
+//   result: start=ok dial=<address of the fake server when something arrived there|-> host=<r.Host of the DoH request|-> x=<ok|fail>
+//           |   start=err
 
 import (
 	"context"
@@ -67,7 +68,7 @@ func upCfgCase(f map[string]string, url, da string) string {
 	if f["listen"] == "v6" {
 		ip = "::1"
 	}
-	seen := &c17Seen{}
+	seen := &c17Seen{h1Only: f["h1"] == "1"}
 	addr, closeSrv, err := c17StartServer(srv, net.JoinHostPort(ip, "0"), cert, seen, clientCAs)
 	if err != nil {
 		return "HARNESS-ERROR listen " + err.Error()
@@ -101,5 +102,17 @@ func upCfgCase(f map[string]string, url, da string) string {
 	if c17Touched(seen) > 0 {
 		dial = net.JoinHostPort(ip, c17PortToken)
 	}
-	return "start=ok dial=" + dial + " x=" + x
+	// the Host header / :authority of the DoH request as the fake server received it
+	host := "-"
+	if srv == "http" || srv == "https" || srv == "h3" {
+		seen.mu.Lock()
+		if seen.hostSet && x == "ok" {
+			host = seen.host
+			if strings.HasSuffix(host, ":"+port) {
+				host = strings.TrimSuffix(host, port) + c17PortToken
+			}
+		}
+		seen.mu.Unlock()
+	}
+	return "start=ok dial=" + dial + " host=" + host + " x=" + x
 }
